@@ -382,7 +382,8 @@ MANIFEST = {
             "SSE2 rebuilt from /repo's C source - against a one-line XOR reference, plus "
             "involution and pointer() checks, plus the mask bit/key of frames written by real "
             "client and server protocol objects. Exhaustive within those ranges, which contain "
-            "every branch of the implementations (head/aligned body/tail, table selection).",
+            "every branch of the implementations (head/aligned body/tail, table selection)."
+            " Payloads handed over as bytearray / memoryview (same result, caller's buffer untouched); received frames cut at every position of the header and the key octets.",
     "note": "Trusted: CPython, cffi, gcc; 4 representative keys; payload octets are a fixed "
             "position-dependent pattern. Lengths beyond 4097 (quick) / 65537 (thorough) not run.",
     "technique": "exhaustive bounded enumeration of inputs/chunkings on the real code vs reference model",
